@@ -83,6 +83,16 @@ impl Directory {
             create_file(dir_path, file_number)?;
             files
         };
+        // A crash between `create_new` and `set_len` in `create_file` leaves the newest file
+        // shorter than a WAL file. Left as is, it is unreadable if it is the only file, and once
+        // the writer rolls over into it, it grows as it is written and its trailing partial
+        // block is ignored by the next restart. Finish the interrupted creation.
+        let last_file = OpenOptions::new()
+            .write(true)
+            .open(filepath(dir_path, files.last()))?;
+        if last_file.metadata()?.len() < FILE_NUM_BYTES as u64 {
+            last_file.set_len(FILE_NUM_BYTES as u64)?;
+        }
         Ok(Directory {
             dir: dir_path.to_path_buf(),
             files,
